@@ -1,0 +1,59 @@
+//go:build verif
+
+package font
+
+import "reflect"
+
+// Verification hook for property C09, table synthesis pass (add-only, compiled only with the build tag `verif`).
+
+// VerifLoadedTables lists the tables NewFont accepted (non zero value after parsing), by table tag.
+func (f *Font) VerifLoadedTables() []string {
+	var out []string
+	add := func(tag string, v interface{}) {
+		if v == nil {
+			return
+		}
+		rv := reflect.ValueOf(v)
+		if !rv.IsValid() || rv.IsZero() {
+			return
+		}
+		if (rv.Kind() == reflect.Slice || rv.Kind() == reflect.Map) && rv.Len() == 0 {
+			return
+		}
+		out = append(out, tag)
+	}
+	add("cmap", f.Cmap)
+	add("cmap14", f.cmapVar)
+	add("hhea", f.hhea)
+	add("vhea", f.vhea)
+	add("VORG", f.vorg)
+	add("CFF", f.cff)
+	add("CFF2", f.cff2)
+	add("post", f.post)
+	add("SVG", f.svg)
+	add("glyf", f.glyf)
+	add("hmtx", f.hmtx)
+	add("vmtx", f.vmtx)
+	add("bitmap", f.bitmap)
+	add("sbix", f.sbix)
+	add("OS/2", f.os2)
+	add("name", f.names)
+	add("head", f.head)
+	add("fvar", f.fvar)
+	add("HVAR", f.hvar)
+	add("VVAR", f.vvar)
+	add("avar", f.avar)
+	add("MVAR", f.mvar)
+	add("gvar", f.gvar)
+	add("GDEF", f.GDEF)
+	add("trak", f.Trak)
+	add("ankr", f.Ankr)
+	add("feat", f.Feat)
+	add("ltag", f.Ltag)
+	add("morx", f.Morx)
+	add("kern", f.Kern)
+	add("kerx", f.Kerx)
+	add("GSUB", f.GSUB.Lookups)
+	add("GPOS", f.GPOS.Lookups)
+	return out
+}
